@@ -25,7 +25,7 @@ var c17Programs = []string{
 	"find all any", "find all at least 1 not 'a'", "find all (any = x) maybe (any = y)", "find all 'zzz'", "replace all any with 'q' value", "replace all (any = x) with x x",
 	"replace all 'a' with ''", "replace all any with", "find all at least 1 (any = c) named chars", "find all at least 1 (maybe 'a' (not 'a') = el) named row",
 	"find all at least 1 (at least 1 ((not '\\n') = c) named inner maybe '\\n') named outer", "replace all at least 1 (any = c) named l with 'R'", "find skip 1 take 2 any",
-	"find last 1 any", "find all @/(?<n>.)(.)?/", "find all line start at least 1 not '\\n'", "find all 'a'\nreplace all any with 'b'", "find all whole line", "find all (any = value) (any = filename)",
+	"find last 1 any", "find all @/(?<n>.)(.)?/", "find all line start at least 1 not '\\n'", "find all 'a'\nreplace all any with 'b'", "replace all 'a' with 'X'\nfind all any", "replace all any with ''\nfind all (any = x)\nreplace all 'a' with x", "find all whole line", "find all (any = value) (any = filename)",
 	"set t to transform return match + '\"' + '\\\\' end\nreplace all any with t", "find all caseless 'A' any", "find all in 'a', '\"', '\\\\' any", "find top 1 (at least 1 any) = all", "find all (not in 'a') = matchNumber",
 }
 
